@@ -60,5 +60,6 @@ def install_shared(E):
         from . import runtime_lib
 
         runtime_lib.install_runtime_types(E)
+        runtime_lib.install_runtime_types2(E)
     except ImportError:
         pass
